@@ -97,7 +97,21 @@ class Collector:
                 self.nested(priority, identifier, *reps)
 
 
-def asm(files, charset="bk", timeout=5.0, fs=None, handler="collect", listing=False, post=None, keep_root=False):
+def _reset_after_hang(m):
+    """The watchdog is an asynchronous interrupt of OURS: it can land between `depth += 1` and the matching decrement, or
+    between a push and its pop, and leave the module-level evaluation state of this worker process dirty (later programs in
+    the same worker would then fail spuriously).  That is an artifact of the watchdog, not behaviour of the assembler, so the
+    state is put back.  Best effort: if the internals were refactored away there is nothing to reset."""
+    try:
+        m["deferred"].try_compute.depth = 0
+        del m["deferred"].Awaiting.awaiting_stack[:]
+        del m["reports"].handle_reports.handlers_stack[:]
+    except Exception:
+        pass
+
+
+def asm(files, charset="bk", timeout=5.0, fs=None, handler="collect", listing=False, post=None, keep_root=False,
+        reset_after_hang=True):
     """Assemble `files` = [(name, text), ...] (linked in that order).
 
     fs: {relative path: str|bytes} materialised in a scratch directory together with the sources
@@ -169,6 +183,8 @@ def asm(files, charset="bk", timeout=5.0, fs=None, handler="collect", listing=Fa
                 res["outcome"] = "hang"
                 res["reports"] = col.items
                 res["n_err"] = sum(1 for r in col.items if r[0] in ("error", "critical"))
+                if reset_after_hang:
+                    _reset_after_hang(m)
                 return res
             res["outcome"] = "exception"
             tb = traceback.extract_tb(ex.__traceback__)
@@ -180,6 +196,8 @@ def asm(files, charset="bk", timeout=5.0, fs=None, handler="collect", listing=Fa
             res["exc"] = f"{type(ex).__name__}: {str(ex)[:200]} @ {where}"
         res["reports"] = col.items
         res["n_err"] = sum(1 for r in col.items if r[0] in ("error", "critical"))
+        if res["outcome"] == "hang" and reset_after_hang:
+            _reset_after_hang(m)
         return res
     finally:
         if root and not keep_root:
